@@ -65,6 +65,10 @@ def calculate_checksum_udp(packet: Packet):
     packet_checksum = packet.udp.sum.to_bytes(2, 'big')
     logging.info(f"expected checksum: 0x{calculated_checksum.hex()}, packet checksum: 0x{packet_checksum.hex()}")
 
+    # 0xffff and 0x0000 both represent zero in one's complement arithmetic (RFC 768, RFC 1071)
+    if calculated_checksum == b'\x00\x00' and packet_checksum == b'\xff\xff':
+        return True
+
     return calculated_checksum == packet_checksum
 
 
@@ -101,5 +105,9 @@ def calculate_checksum_tcp(packet: Packet):
     packet_checksum = packet.tcp.sum.to_bytes(2, 'big')
 
     logging.info(f"expected checksum: 0x{calculated_checksum.hex()}, packet checksum: 0x{packet_checksum.hex()}")
+
+    # 0xffff and 0x0000 both represent zero in one's complement arithmetic (RFC 768, RFC 1071)
+    if calculated_checksum == b'\x00\x00' and packet_checksum == b'\xff\xff':
+        return True
 
     return calculated_checksum == packet_checksum
